@@ -102,6 +102,9 @@ func Assert(c bool, label string) {
 	}
 }
 func Reach(label string)  {}
+
+// Hang marks a point that blocks forever (engine: a "hang" violation).
+func Hang(label string) { select {} }
 func Concrete(x int) int  { return x }
 func Symbolic() bool      { return false }
 func Param(name string, def int) int {
